@@ -203,4 +203,16 @@ theorem metaUpd_merge_expected : metaUpd_merge = [
   ("c.mIndex.maxTime < maxT", "c.mIndex.maxTime = maxT")
 ] := by rfl
 
+/-! ### streaming compaction: recompute or merge the column statistics — the decision pair (model: OG.C03.PreAgg) -/
+
+theorem preaggCond_caller_expected : preaggCond_caller = "c.chunkSegments > c.Conf.maxSegmentLimit" := by rfl
+
+theorem preaggCond_integer_expected : preaggCond_integer = "c.chunkSegments > c.Conf.maxSegmentLimit" := by rfl
+
+theorem preaggCond_float_expected : preaggCond_float = "c.chunkSegments > c.Conf.maxSegmentLimit" := by rfl
+
+theorem preaggCond_string_expected : preaggCond_string = "c.chunkSegments > c.Conf.maxSegmentLimit" := by rfl
+
+theorem preaggCond_boolean_expected : preaggCond_boolean = "c.chunkSegments > c.Conf.maxSegmentLimit" := by rfl
+
 end OG.C03.Facts
